@@ -15,6 +15,7 @@ import re
 from ..core import hx, unhx, parallel_map, sha
 
 DRIVERS = ["drv_ansi"]
+GENERATED = ["VteTable", "AnsiSgr"]
 ESC = "\x1b"
 
 # ------------------------------------------------------------------ independent SGR interpreter
@@ -268,7 +269,52 @@ def corr_basic(ctx, rep, hook, mdl):
             op = r.split()[0]
             agree = (i == m) or (i.startswith("PANIC") and m.startswith("PANIC"))
             rep.corr_case(op, agree, dict(request=r, line=s, impl=i, model=m))
+    oracle_partition(rep, hook, lines, [impl[k * per] for k in range(len(lines))])
     return lines, impl
+
+
+IGNORED_CSI_RE = re.compile(r"\x1b\[[0-9;:<=>?]*[ -/]*[@-~]")
+
+
+def is_partition(el, sb):
+    if not el.startswith("ok"):
+        return False
+    pos = 0
+    for e in el.split()[1:]:
+        p = e.split(":")
+        a, b = int(p[1]), int(p[2])
+        if a != pos or b < a or b > len(sb) or (b < len(sb) and 0x80 <= sb[b] < 0xC0):
+            return False
+        pos = b
+    return pos == len(sb)
+
+
+def drop_ignored_csi(s):
+    """Remove the CSI sequences the parser ignores: more than one intermediate (a private marker
+    counts as one) or more than 32 parameters."""
+    def f(m):
+        t = m.group(0)[2:-1]
+        params = t.rstrip(" !\"#$%&'()*+,-./")
+        inter = len(t) - len(params) + (1 if params[:1] in "<=>?" and params else 0)
+        nsep = params.count(";") + params.count(":")
+        return "" if inter > 1 or nsep >= 32 else m.group(0)
+    return IGNORED_CSI_RE.sub(f, s)
+
+
+def oracle_partition(rep, hook, lines, els):
+    """`vte_partition` on the implementation, for arbitrary lines: element ranges must be contiguous
+    from 0 to the length on char boundaries. Known to fail (defect #10 and relatives)."""
+    bad = [(s, e) for s, e in zip(lines, els) if not is_partition(e, s.encode())]
+    reduced = [drop_ignored_csi(s) for s, _ in bad]
+    again = hook.ask([f"ansi.elements {hx(r)}" for r in reduced]) if bad else []
+    for (s, e), r, e2 in zip(bad, reduced, again):
+        if r != s and is_partition(e2, r.encode()):
+            sig = "vte-partition:ignored-csi"
+        else:
+            sig = "vte-partition:aborted-or-unterminated-sequence"
+        rep.count(sig)
+        rep.violation(sig, "the element iterator's ranges are not a partition of the line (bytes of an escape "
+                      "sequence dropped from its bookkeeping)", dict(kind="hook", op="ansi.elements", line=s, got=e))
 
 
 def corr_widths(ctx, rep, hook, mdl, lines, impl):
